@@ -430,6 +430,9 @@ def key_sort(k):
     if k[0] == "str": return k[1]
     if k[0] == "char": return k[1]
     if k[0] == "bool": return int(k[1])
+    if k[0] == "tup": return tuple(key_sort(x) for x in k[1])
+    if k[0] == "seq": return tuple(key_sort(x) for x in k[2])
+    if k[0] == "unit": return 0
     raise ValueError("key type")
 
 
